@@ -188,7 +188,9 @@ class CompilerArgs(T.MutableSequence[str]):
         del self._container[index]
 
     def __len__(self) -> int:
-        return len(self._container) + len(self.pre) + len(self.post)
+        # pending arguments may still be dropped as duplicates: merge them first
+        self.flush_pre_post()
+        return len(self._container)
 
     def insert(self, index: int, value: str) -> None:
         self.flush_pre_post()
